@@ -52,6 +52,7 @@ var allKinds = []string{"status-500", "status-502", "status-429", "status-404", 
 func gen(t *rapid.T) Case {
 	o := copysc.DefaultGen()
 	o.Pairings = []string{"same-reg", "two-reg", "two-reg", "reg-layout", "reg-layout", "layout-reg", "two-layout", "same-repo"}
+	o.Obstruct = true // a layout target where the top-level manifest cannot be written: the copy fails, the tag must not have moved
 	var c Case
 	// a third of the cases aims at contention between the per-child goroutines: nested indexes whose parts
 	// share blobs and child manifests, small images, a latency plan, and every request position of small runs
@@ -292,6 +293,13 @@ func (r *run) tagInvariant(when string, td string, ok bool, has func(string) boo
 	}
 	if td == e.PreTag {
 		return
+	}
+	if td == e.RootDig && e.Tgt.Kind == "layout" {
+		// the tag names the source's top-level manifest: that manifest itself must be a regular file by now
+		if fi, err := os.Stat(blobPath(e.Tgt.Dir, e.RootDig)); err != nil || !fi.Mode().IsRegular() {
+			r.setViol(evid.V("tag-written-before-manifest", "%s (%s@%d): target tag %q already resolves to the source digest %s but that manifest is not a file of the target layout (copy outcome judged separately)", when, r.kind, r.k, e.TgtTag, e.RootDig))
+			return
+		}
 	}
 	if td != e.RootDig {
 		r.setViol(evid.V("tag-moved-elsewhere", "%s (%s@%d): target tag %q resolves to %s, neither the previous value %q nor the source digest %s", when, r.kind, r.k, e.TgtTag, td, e.PreTag, e.RootDig))
